@@ -426,6 +426,14 @@ def float_replay(allm, item, hits):
         dist_res = run(nprocs)
         serial = run((1, 1))
         err = float(np.max(np.abs(dist_res - serial)))
+        abs_err = 0.0
+        if op in ('pol', 'pol_keep'):
+            # absolute reference for the recording kernel of this replay: every (z, v) plane holds sum(phi[:, :, z]) + 1000 v
+            want = np.empty(SHAPE)
+            for iz in range(nz):
+                for iv in range(nv):
+                    want[:, :, iz, iv] = float(np.sum(Pd[:, :, iz])) + 1000.0 * v[iv]
+            abs_err = float(np.max(np.abs(serial - want)))
     except Exception as e:
         return 'exception %s: %s' % (type(e).__name__, e)
     finally:
@@ -433,6 +441,8 @@ def float_replay(allm, item, hits):
         numenv.enable()
     if err > 1e-9:
         return 'operator %s on process grid %s differs from the serial run by %.3g' % (op, list(nprocs), err)
+    if abs_err > 1e-6:
+        return 'operator %s (one process): the per-plane kernel does not receive the potential plane and velocity of its own (z, v) slice (deviation %.3g)' % (op, abs_err)
     if slice_errs and max(slice_errs) > 1e-9:
         return 'operator flux: grid step differs by %.3g from stepping each (r,v) surface with its own radial/velocity index (serial run included)' % max(slice_errs)
     return None
